@@ -227,6 +227,14 @@ func run(c *fw.Ctx) {
 				continue
 			}
 			c.EvalN(r2[i].Evals)
+			// the source struct's own writer already violates C01/C02 on some
+			// input: reported here too, because the files C15 quantifies over
+			// are then not the files the property talks about
+			for _, v := range verdicts(r1[i]) {
+				if strings.HasPrefix(v[0], "base-") {
+					c.Violate("shape="+sig+" class="+v[0], fmt.Sprintf("struct shape %s: the source struct's own writer fails: %s: %s", sig, v[0], v[1]), "regen", rcase{sig, v[0]})
+				}
+			}
 			if c.WantSample() && i%23 == 2 {
 				c.Sample(map[string]interface{}{"shape": sig, "files_written": r1[i].Evals, "files_read_back": r2[i].Evals})
 			}
@@ -248,12 +256,17 @@ func replay(c *fw.Ctx, kind string, data json.RawMessage) string {
 	}
 	tier := fmt.Sprintf("replay%d", os.Getpid())
 	defer os.RemoveAll(filepath.Join(os.Getenv("VERIF_MC"), "work/c15", tier))
-	_, r2, err := runJob(tier, 0, []*prog.Shape{s})
+	r1, r2, err := runJob(tier, 0, []*prog.Shape{s})
 	if err != nil {
 		return "harness: " + err.Error()
 	}
 	if r2[0] == nil {
 		return ""
+	}
+	for _, v := range verdicts(r1[0]) {
+		if v[0] == rc.Class {
+			return fmt.Sprintf("struct shape %s: %s: %s", rc.Sig, v[0], v[1])
+		}
 	}
 	for _, v := range verdicts(*r2[0]) {
 		if v[0] == rc.Class {
